@@ -339,10 +339,11 @@ def go_env():
 
 
 def load_known():
-    p = os.path.join(VERIF, "known_findings.json")
-    if not os.path.exists(p):
-        return []
-    return json.load(open(p)).get("findings", [])
+    out = []
+    for p in [os.path.join(VERIF, "known_findings.json")] + sorted(glob.glob(os.path.join(VERIF, "known_findings.d", "*.json"))):
+        if os.path.exists(p):
+            out += json.load(open(p)).get("findings", [])
+    return out
 
 
 def read_ndjson(path):
